@@ -45,6 +45,6 @@ def _post(run):
     return []
 
 
-P = ScenarioProperty(PROP, {"families": ["step", "constant", "sphere", "rastrigin", "abssum", "twobasin", "linear", "offset", "nanhole"], "cap": (6, 10), "observe_intermittently": True}, lambda sc: [C20Checker(sc)], _judge, quick=1600, thorough=30000, machine={"allow_reload": False, "profile": {"observe_intermittently": True}}, post=_post)
+P = ScenarioProperty(PROP, {"families": ["step", "constant", "sphere", "rastrigin", "abssum", "twobasin", "linear", "offset", "nanhole"], "cap": (6, 10), "observe_intermittently": True, "allow_cache": True}, lambda sc: [C20Checker(sc)], _judge, quick=1600, thorough=30000, machine={"allow_reload": False, "profile": {"observe_intermittently": True}}, post=_post)
 run_shard = P.run_shard
 replay = P.replay
